@@ -40,7 +40,7 @@ type shrinkCase struct {
 	Hooks      [][]string   `json:"hooks"`   // SETHOOK/SETCHAN commands
 	Batches    [][][]string `json:"batches"` // writes issued at successive gate stages
 	CrashStage string       `json:"crash_stage"`
-	Pump       bool         `json:"pump"` // a free-running writer streams SETs from the before-swap stage until the shrink ended
+	Pump       bool         `json:"pump"`               // a free-running writer streams SETs from the before-swap stage until the shrink ended
 	Boundary   []int        `json:"boundary,omitempty"` // ops aimed at the scan cursor, one per batch boundary inside a collection
 	Revive     bool         `json:"revive,omitempty"`   // an object's deadline elapses before its batch is scanned and is lifted right after
 }
@@ -68,6 +68,8 @@ var objCatalogue = [][]string{
 	{"STRING", "line1\r\nline2\x00\xff binary"},
 	{"STRING", "12.50"},
 	{"OBJECT", `{"type":"Feature","geometry":{"type":"Point","coordinates":[10,60]},"properties":{"type":"Circle","radius":1000,"radius_units":"m"}}`},
+	{"BOUNDS", "-10", "170", "10", "-170"}, // min > max: accepted by SET
+	{"BOUNDS", "33", "-115", "33", "-115"}, // degenerate rectangle
 }
 
 var fieldCatalogue = [][]string{
@@ -81,6 +83,9 @@ var fieldCatalogue = [][]string{
 	{"FIELD", "tr", "true", "FIELD", "fa", "false", "FIELD", "nu", "null"},
 	{"FIELD", "é世", "üñí", "FIELD", "sp ace", "with space", "FIELD", "big", "1e300"},
 	{"FIELD", "exp", "1e3", "FIELD", "neg", "-5.25", "FIELD", "hexish", "0x10"},
+	{"FIELD", "bytes", "\xffabc\xfe", "FIELD", "nul", "a\x00b", "FIELD", "crlf", "a\r\nb"},
+	{"FIELD", " padded ", "5", "FIELD", "tab\t", "x"},
+	{"FIELD", "likenum", `"12"`, "FIELD", "liketrue", `"true"`, "FIELD", "nanv", "NaN", "FIELD", "upper", "ABC"},
 }
 
 // datasetCmds expands the compact dataset description into commands.
@@ -165,6 +170,18 @@ func drawCase(rt *rapid.T) shrinkCase {
 					cmd = []string{"FLUSHDB"}
 				} else {
 					cmd = []string{"DELHOOK", "hk0"}
+				}
+			case 4:
+				// relative document edits: replayed twice they give another result
+				switch rapid.IntRange(0, 3).Draw(t, "jrel") {
+				case 0:
+					cmd = []string{"SET", "aaa", "doc", "STRING", `{"tags":["a"],"log":[1,2,3]}`}
+				case 1:
+					cmd = []string{"JSET", "aaa", "doc", "tags.-1", "b"}
+				case 2:
+					cmd = []string{"JDEL", "aaa", "doc", "log.0"}
+				default:
+					cmd = []string{"JSET", "aaa", "doc", "n", "7", "RAW"}
 				}
 			case 3:
 				cmd = []string{"SETCHAN", "during", "NEARBY", "fencekey", "FENCE", "POINT", "1", "1", "10"}
@@ -569,9 +586,17 @@ loop:
 		}
 		fail(key, "restart after AOFSHRINK recovers a different dataset than the un-shrunk twin serves (A=twin, B=restarted): "+diff)
 	}
-	// deadlines not shortened beyond rounding
 	cr := R.MustDial()
 	defer cr.Close()
+	// the objects are the same KIND of thing after the rewrite: counters recomputed by the restarted
+	// server equal the twin's (a BOUNDS rectangle that came back as a polygon has 5 points, not 2)
+	for k := range dT.Keys {
+		st, sr := ct.MustDo("STATS", k), cr.MustDo("STATS", k)
+		if !st.Equal(sr) {
+			fail("shrink-restart-differs:stats", fmt.Sprintf("STATS %q after shrink + restart = %s, the un-shrunk twin reports %s", k, sr, st))
+		}
+	}
+	// deadlines not shortened beyond rounding
 	checked := 0
 	for k, m := range dT.Keys {
 		for id, o := range m {
@@ -754,7 +779,7 @@ func reproducesNoAOF(sc shrinkCase) bool {
 type probeFailer struct{ failed bool }
 
 func (p *probeFailer) Fatalf(format string, args ...any) { p.failed = true; panic(p) }
-func (p *probeFailer) Helper()                            {}
+func (p *probeFailer) Helper()                           {}
 
 func probeFails(sc shrinkCase) (failed bool) {
 	pf := &probeFailer{}
